@@ -83,7 +83,8 @@ theorem stepState_no_panic (env : Env B H) (c : Codec H) (hb : nextLen env c.sta
             simp [nextLen, HEADERS_COUNT_LEN]
           rw [List.length_take, hnl] at hl
           have : ¬ len < 2 := by omega
-          simp [this]
+          simp only [this, if_false]
+          split <;> simp
       · simp only [ht, if_false]
         cases decodeMessage env t (c.buffer.take (nextLen env (State.header (.known t len) : State H))) <;> simp
     | unknown len t =>
@@ -188,8 +189,10 @@ theorem stepState_inr_rank (env : Env B H) (c c2 : Codec H) (nl a : Nat) (hw : W
             simp only [hr] at h
             split at h
             · simp at h
-            · simp only [Sum.inr.injEq, Prod.mk.injEq] at h
-              rw [← h.1]; simp [rank, WFc, hs]
+            · split at h
+              · simp at h
+              · simp only [Sum.inr.injEq, Prod.mk.injEq] at h
+                rw [← h.1]; simp [rank, WFc, hs]
         · split at h <;> simp at h
     | unknown len t =>
       unfold stepState at h
@@ -248,7 +251,9 @@ theorem stepState_not_hang (env : Env B H) (c : Codec H) (nl : Nat) :
           | ok p =>
             obtain ⟨items, r⟩ := p
             simp only [hr] at h
-            split at h <;> simp at h
+            split at h
+            · simp at h
+            · split at h <;> simp at h
         · split at h <;> simp at h
     | unknown len t =>
       unfold stepState at h
@@ -353,7 +358,9 @@ theorem stepState_alloc_le (env : Env B H) (c : Codec H) (nl : Nat) :
             simp only
             split
             · simp [stepAlloc]
-            · simp only [stepAlloc]; exact min_batch_le _ _
+            · split
+              · simp [stepAlloc]
+              · simp only [stepAlloc]; exact min_batch_le _ _
         · split <;> simp [stepAlloc]
     | unknown len t =>
       unfold stepState
